@@ -439,24 +439,38 @@ bool FilePreferenceSaverThread::Join(void *ptr) {
 void FilePreferenceSaverThread::Synchronize() {
   Mutex synchronize_mutex;
   ConditionVariable condition_var;
+  bool complete = false;
   synchronize_mutex.Lock();
   m_ss.Execute(NewSingleCallback(
         this,
         &FilePreferenceSaverThread::CompleteSynchronization,
         &condition_var,
-        &synchronize_mutex));
-  condition_var.Wait(&synchronize_mutex);
+        &synchronize_mutex,
+        &complete));
+  // pthread_cond_wait() may wake up spuriously, so wait until the saver thread
+  // tells us it has run our callback. Returning any earlier would mean the
+  // saves queued before this call may not have been written yet, and the saver
+  // thread would go on to use the mutex & condition variable after they've
+  // been destroyed.
+  while (!complete) {
+    condition_var.Wait(&synchronize_mutex);
+  }
+  synchronize_mutex.Unlock();
 }
 
 
 void FilePreferenceSaverThread::CompleteSynchronization(
     ConditionVariable *condition,
-    Mutex *mutex) {
+    Mutex *mutex,
+    bool *complete) {
   // calling lock here forces us to block until Wait() is called on the
-  // condition_var.
+  // condition_var. We signal with the mutex held, so that the waiting thread
+  // can't return (and destroy the mutex & condition variable) until we've
+  // finished with them.
   mutex->Lock();
-  mutex->Unlock();
+  *complete = true;
   condition->Signal();
+  mutex->Unlock();
 }
 
 
